@@ -55,10 +55,28 @@ theorem legacy_openssl_roundtrip (r : Openssl.Legacy.Raw) (h : Openssl.Legacy.We
     Openssl.Legacy.construct (Openssl.Legacy.str r) = .ok r := Openssl.Legacy.str_roundtrip r h
 theorem openssl_roundtrip (r : Openssl.Raw) (h : Openssl.WellFormed r) :
     Openssl.construct (Openssl.str r) = .ok r := Openssl.str_roundtrip r h
-/-- deb: partial — a version whose upstream contains a hyphen and whose revision is `0`
-prints without the revision and re-parses differently (known finding) -/
-theorem deb_roundtrip_partial (r : Deb.Raw) (h : Deb.WellFormed r = true)
-    (he : (Deb.natDigits r.epoch).length ≤ 4300) (hr : r.revision = ['0'] → '-' ∉ r.upstream) :
-    Deb.construct (Deb.str r) = .ok r := Deb.str_roundtrip_partial r h he hr
+/-- deb (FIXED CODE: a "0" revision is printed when the upstream contains a hyphen) -/
+theorem deb_roundtrip (r : Deb.Raw) (h : Deb.WellFormed r = true)
+    (he : (Deb.natDigits r.epoch).length ≤ 4300) : Deb.construct (Deb.str r) = .ok r := Deb.str_roundtrip r h he
+theorem deb_constructed {s : List Char} {r : Deb.Raw} (h : Deb.construct s = .ok r) : Deb.WellFormed r = true :=
+  Deb.construct_wf h
+/-- nuget: every constructed value -/
+theorem nuget_roundtrip (s : List Char) (r : Nuget.Raw) (h : Nuget.construct s = .ok r) :
+    Nuget.construct (Nuget.str r) = .ok r := Nuget.str_roundtrip s r h
+theorem nuget_declared (s : List Char) (n : String) : Nuget.construct s ≠ .error (.other n) := Nuget.construct_declared s n
+theorem deb_declared (s : List Char) (n : String) : Deb.construct s ≠ .error (.other n) := Deb.construct_declared s n
+theorem rpm_declared (s : List Char) (n : String) : Rpm.construct s ≠ .error (.other n) := Rpm.construct_declared s n
+/-- rpm: every constructed value whose text does not look like another version once printed
+(an explicit zero epoch in front of a version starting with `v` or containing `:` is dropped by
+`str`: known finding) -/
+theorem rpm_constructed_roundtrip (s : List Char) (r : Rpm.Raw) (h : Rpm.construct s = .ok r)
+    (hx : r.epoch ≠ 0 ∨ (r.version.contains ':' = false ∧ r.release.contains ':' = false ∧
+      Rpm.wellFormed.startsV r.version = false)) : Rpm.construct (Rpm.str r) = .ok r :=
+  Rpm.construct_str_roundtrip s r h hx
+theorem legacy_openssl_constructed_roundtrip (s : List Char) (r : Openssl.Legacy.Raw)
+    (h : Openssl.Legacy.construct s = .ok r) : Openssl.Legacy.construct (Openssl.Legacy.str r) = .ok r :=
+  Openssl.Legacy.construct_roundtrip s r h
+theorem openssl_constructed_roundtrip (s : List Char) (r : Openssl.Raw)
+    (h : Openssl.construct s = .ok r) : Openssl.construct (Openssl.str r) = .ok r := Openssl.construct_roundtrip s r h
 
 end Univers.C11
